@@ -553,3 +553,116 @@ func TestC04Odd(t *testing.T) {
 		}
 	}
 }
+
+// ---- slices that share their store ----
+
+// TestC04SharedSlices: fields that are views (prefix, suffix, middle, whole)
+// of one backing array; each is its own array, "in the same order and length".
+func TestC04SharedSlices(t *testing.T) {
+	defer silenceAs("sharedslices")()
+	col := evid.New("C04", "sharedslices", "")
+	type views struct {
+		A, B, C []string
+		N       []int
+		M       []int
+		Name    string
+	}
+	rapidCheck(t, col, func(rt *rapid.T) {
+		n := rapid.IntRange(1, 6).Draw(rt, "n")
+		strs := make([]string, n)
+		ints := make([]int, n)
+		anys := make([]interface{}, n)
+		for i := range strs {
+			strs[i] = rapid.SampledFrom([]string{"a", "b", "c", "", "é"}).Draw(rt, "s") + fmt.Sprint(i)
+			ints[i] = rapid.IntRange(-3, 70000).Draw(rt, "i")
+			anys[i] = []interface{}{strs[i], ints[i], 1.5, true}[i%4]
+		}
+		cut := func(label string) (int, int) {
+			lo := rapid.IntRange(0, n).Draw(rt, label+"lo")
+			hi := rapid.IntRange(lo, n).Draw(rt, label+"hi")
+			if gen.Uniform(rt, label+"prefix", 2) == 0 {
+				lo = 0
+			}
+			return lo, hi
+		}
+		alo, ahi := cut("a")
+		blo, bhi := cut("b")
+		nlo, nhi := cut("n")
+		var obj interface{}
+		mode := rapid.SampledFrom([]string{"map", "struct", "ptr", "anymap"}).Draw(rt, "mode")
+		conv := func(xs []string) lang.Value {
+			out := lang.Array()
+			for _, x := range xs {
+				out.A = append(out.A, lang.Str(x))
+			}
+			return out
+		}
+		convI := func(xs []int) lang.Value {
+			out := lang.Array()
+			for _, x := range xs {
+				out.A = append(out.A, lang.Int(int64(x)))
+			}
+			return out
+		}
+		wantA, wantB, wantC, wantN, wantM := conv(strs[alo:ahi]), conv(strs[blo:bhi]), conv(strs), convI(ints[nlo:nhi]), convI(ints)
+		switch mode {
+		case "map":
+			obj = map[string]interface{}{"A": strs[alo:ahi], "B": strs[blo:bhi], "C": strs, "N": ints[nlo:nhi], "M": ints, "Name": "n"}
+		case "struct":
+			obj = views{strs[alo:ahi], strs[blo:bhi], strs, ints[nlo:nhi], ints, "n"}
+		case "ptr":
+			obj = &views{strs[alo:ahi], strs[blo:bhi], strs, ints[nlo:nhi], ints, "n"}
+		default:
+			// []interface{} views, as a JSON decoder would never produce but a host may
+			obj = map[string]interface{}{"A": anys[alo:ahi], "B": anys[blo:bhi], "C": anys, "N": ints[nlo:nhi], "M": ints, "Name": "n"}
+			cv := func(xs []interface{}) lang.Value {
+				out := lang.Array()
+				for _, x := range xs {
+					switch y := x.(type) {
+					case string:
+						out.A = append(out.A, lang.Str(y))
+					case int:
+						out.A = append(out.A, lang.Int(int64(y)))
+					case float64:
+						out.A = append(out.A, lang.Float(y))
+					case bool:
+						out.A = append(out.A, lang.Bool(y))
+					}
+				}
+				return out
+			}
+			wantA, wantB, wantC = cv(anys[alo:ahi]), cv(anys[blo:bhi]), cv(anys)
+		}
+		order := rapid.Permutation([]string{"A", "B", "C", "N", "M"}).Draw(rt, "order")
+		wants := map[string]lang.Value{"A": wantA, "B": wantB, "C": wantC, "N": wantN, "M": wantM}
+		script := "return [" + strings.Join(order, ", ") + "];"
+		exp := lang.Array()
+		for _, f := range order {
+			exp.A = append(exp.A, wants[f])
+		}
+		if rapid.Bool().Draw(rt, "lens") {
+			script = "return [len(" + strings.Join(order, "), len(") + ")];"
+			exp = lang.Array()
+			for _, f := range order {
+				exp.A = append(exp.A, lang.Int(int64(len(wants[f].A))))
+			}
+		}
+		payload := map[string]interface{}{"prop": "C04", "kind": "shared-slices", "script": script, "mode": mode,
+			"views": fmt.Sprintf("A=[%d:%d] B=[%d:%d] C=all(%d) N=[%d:%d] M=all", alo, ahi, blo, bhi, n, nlo, nhi), "expect": exp.Describe()}
+		r, err := prepared(script, nil, rapid.Bool().Draw(rt, "noopt"))
+		if err != nil {
+			rt.Fatalf("harness: %v", err)
+		}
+		for round := 0; round < 2; round++ {
+			res := r.Execute(obj)
+			if res.Panic != nil || res.Err != nil {
+				violation(rt, "C04", payload, "round %d: unexpected failure: %v %v", round, res.Panic, res.Err)
+			}
+			if !lang.DeepEqual(res.Val, exp) {
+				violation(rt, "C04", payload, "round %d: the script sees %s; the fields hold %s", round, res.Val.Describe(), exp.Describe())
+			}
+		}
+		col.Class("mode:" + mode)
+		col.Case(fmt.Sprint(payload), (ahi-alo != n) || (bhi-blo != n), func() interface{} { return payload })
+	})
+}
